@@ -94,7 +94,8 @@ def endsLineAt (gs : List Gr) (i : Nat) : Bool := match gs[i]? with | none => tr
 /-- `stop_before_terminator` (fix f9149ef): a forward motion that ends at the start of a later line, or runs
 into the end of the buffer, takes the text up to the end of the line before, not that line's terminator. -/
 def stopBeforeTerminator (gs : List Gr) (s e : Nat) : Nat × Nat :=
-  if e > s + 1 && isNlAtGs gs (e - 1) then (s, e - 1) else (s, e)
+  -- the terminator of the last line is never taken, even on an empty line (fix 0954d9e)
+  if decide (e > s) && isNlAtGs gs (e - 1) && (decide (e > s + 1) || e == gs.length) then (s, e - 1) else (s, e)
 
 /-- `range_from_motion` -/
 def rangeFromMotion (lb : LB) : MK → Option (Nat × Nat)
@@ -321,6 +322,7 @@ inductive VerbK where
   | putSpan (after : Bool)      -- p / P with a charwise register and a non-line motion
   | insertChar (c : Char)
   | replaceChar (c : Char)      -- R-mode typing and visual r
+  | openLine (after : Bool)     -- o / O: the line break they add (InsertModeLineBreak)
   | toggleInplace (count : Nat) -- ~
   | replaceInplace (c : Char) (count : Nat) -- r<c>
   deriving Repr, BEq, DecidableEq
@@ -331,6 +333,18 @@ structure VOut where
   text : Str
   regs : Regs
   deriving Repr, BEq, DecidableEq
+
+/-- Where `o` / `O` put their line break (fix 1a27068): `O` on the first line at the very start, `o` on a
+single unterminated line at the very end, otherwise after the terminator of the cursor line (`o`) or on the
+terminator of the line before (`O`); `ub` is the cursor's upper bound. -/
+def openLineIdx (after : Bool) (lb : LB) : Nat :=
+  match thisLine lb with
+  | none => lb.cur
+  | some (st, en) =>
+    if st == 0 && !after then 0
+    else if st == 0 && en == lb.max && !(lb.gs.flatten.getLast? == some '\n') then lb.max
+    else if after then min en (if lb.excl then lb.max - 1 else lb.max)
+    else min (min (st - 1) lb.max) (if lb.excl then lb.max - 1 else lb.max)
 
 def MK.isNull : MK → Bool | .null => true | _ => false
 
@@ -380,6 +394,8 @@ def execVerbText (v : VerbK) (mk : MK) (reg : RegName) (lb : LB) (regs : Regs) :
       if isNl g then .ok ⟨(lb.gs.take lb.cur).flatten ++ [c] ++ (lb.gs.drop lb.cur).flatten, regs⟩
       else .ok ⟨(lb.gs.take lb.cur).flatten ++ [c] ++ (lb.gs.drop (lb.cur + 1)).flatten, regs⟩
 
+  | .openLine after =>
+    .ok ⟨(lb.gs.take (openLineIdx after lb)).flatten ++ ['\n'] ++ (lb.gs.drop (openLineIdx after lb)).flatten, regs⟩
   | .toggleInplace n =>
     .ok ⟨(toggleInplaceGo n lb.cur lb.gs).flatten, regs⟩
   | .replaceInplace c n =>
